@@ -155,9 +155,61 @@ func runC30(c *Ctx) {
 			c.MP(cl, "body reader: length part exactly for the fixed-length kind", rl, 1, GCmp("var:bodyType", "==", "quicstreamheader.FixedLengthBodyType"))
 			c.MP(cl, "body reader: length part after the body type", rl, 1, GOk("broker.readBodyType(ctx)"), GTrue("errors.Is(broker.readBodyType(ctx)#1, io.EOF)"))
 			c.StoredIs(cl, "body reader: the announced length is what the length part says", c.StoresD(cl, "&var:bodyLength"), 1, "broker.readLength(ctx)#0")
-			sr := c.CallsTo(cl, "io.NewSectionReader")
-			c.ArgIs(cl, "body reader: a fixed-length body is limited to the announced length", sr, 1, 2, "var:bodyLength")
-			c.MP(cl, "body reader: a fixed-length body is handed out only if its length part was read", sr, 1, GOk("broker.readLength(ctx)"), GTrue("errors.Is(broker.readLength(ctx)#1, io.EOF)"))
+			// the reader handed out for a fixed-length body: the one store to body that is neither the empty
+			// buffer nor the raw stream
+			var limited ssa.Instruction
+			var limitedType types.Type
+			for _, in := range c.StoresD(cl, "&var:body") {
+				v := in.(*ssa.Store).Val
+				d := c.D(v)
+				if d == "broker.Reader" {
+					continue
+				}
+				t := v.Type()
+				if mi, ok := v.(*ssa.MakeInterface); ok {
+					t = mi.X.Type()
+				}
+				if strings.HasSuffix(types.TypeString(t, nil), "bytes.Buffer") {
+					continue
+				}
+				limited, limitedType = in, t
+			}
+			if limited == nil {
+				c.Unresolved(cl, "body reader: the reader of a fixed-length body", "no store of a limiting reader to body")
+			} else {
+				lim := []ssa.Instruction{limited}
+				c.MP(cl, "body reader: a fixed-length body is handed out only if its length part was read", lim, 1, GOk("broker.readLength(ctx)"), GTrue("errors.Is(broker.readLength(ctx)#1, io.EOF)"))
+				// limited to the announced length: io.NewSectionReader(_, 0, bodyLength) or a literal with a field set from it
+				bound := false
+				for _, call := range c.CallsTo(cl, "io.NewSectionReader") {
+					bound = bound || c.D(CallArg(call, 2)) == "var:bodyLength"
+				}
+				for _, call := range c.CallsTo(cl, "io.LimitReader") {
+					bound = bound || c.D(CallArg(call, 1)) == "var:bodyLength"
+				}
+				for _, st := range c.StoresD(cl, "&var:complit.*") {
+					if st.Block() == limited.Block() && c.D(st.(*ssa.Store).Val) == "var:bodyLength" {
+						bound = true
+					}
+				}
+				c.Report(cl, "body reader: a fixed-length body is limited to the announced length", c.InstrPos(limited), bound, types.TypeString(limitedType, nil))
+				// an early end of the stream is an error for the consumer, not the end of the body
+				early := false
+				why := "reader type " + types.TypeString(limitedType, nil) + " passes a plain io.EOF through when the stream ends before the announced length"
+				if n, ok := derefNamed(limitedType).(*types.Named); ok && n.Obj().Pkg() != nil && c.inTree(n.Obj().Pkg()) {
+					if rd := c.ssaOf(ownMethod(n, "Read")); rd != nil {
+						for _, r := range Returns(rd) {
+							if len(r.Results) == 2 && c.D(RetVal(r, 1)) == "io.ErrUnexpectedEOF" {
+								if allOK(c.MustPass(rd, nil, []ssa.Instruction{r}, GTrue("errors.Is(*, io.EOF)"), GCmp("*", "==", "io.EOF"))) {
+									early = true
+								}
+							}
+						}
+						why = "Read of " + n.Obj().Name() + " answers io.ErrUnexpectedEOF when the inner read reports EOF with bytes left: " + fmt.Sprint(early)
+					}
+				}
+				c.Report(cl, "body reader: a fixed-length body that ends early is reported as an error", c.InstrPos(limited), early, why)
+			}
 			c.StoredIs(cl, "body reader: body type is the one read", c.StoresD(cl, "&var:bodyType"), 1, "broker.readBodyType(ctx)#0")
 			// a fixed-length body stays the empty buffer only for length 0 (or a stream that ended)
 			var empty []ssa.Instruction
@@ -167,12 +219,7 @@ func runC30(c *Ctx) {
 				}
 			}
 			if c.Exists(cl, "body reader: the fixed-length case starts from the empty body", empty, 1) {
-				var sect ssa.Instruction
-				for _, in := range c.StoresD(cl, "&var:body") {
-					if strings.HasPrefix(c.D(in.(*ssa.Store).Val), "io.NewSectionReader(") {
-						sect = in
-					}
-				}
+				sect := limited
 				c.MPFrom(cl, empty[0], "body reader: the empty body is kept only for length 0 or an ended stream", c.SuccessReturns(cl), 1,
 					Gate{Name: "limited reader installed", Barrier: func(p *Prog, in ssa.Instruction) bool { return sect != nil && in == sect }},
 					GCmp("var:bodyLength", "<=", "0"), GTrue("errors.Is(broker.readLength(ctx)#1, io.EOF)"))
@@ -231,7 +278,7 @@ func runC30(c *Ctx) {
 	c.OnlyIn("use of the raw reader of a broker", c.WhoTouches("baseBroker", "Reader"), 4,
 		"network/quicstream/header.newBaseBroker", B+"read", B+"readLength", B+"readLengthed", B+"readBody")
 	ensureReadRules(c)
-	lengthedAllocRules(c)
+	lengthedAllocRules(c, true)
 	for _, t := range [][2]string{{"read", "util.EnsureRead"}, {"readLength", "util.ReadLength"}, {"readLengthed", "util.ReadLengthed"}} {
 		if fn := c.Need(B + t[0]); fn != nil {
 			c.Exists(fn, t[0]+" reads through "+t[1], c.CallsTo(fn, t[1]), 1)
